@@ -349,7 +349,7 @@ def c01_e(ctx):
 # ---------------------------------------------------------------------------
 # C01.G  the SHAPE of the workflow is a solver choice too
 # ---------------------------------------------------------------------------
-_NAMES = 'abcd'
+_NAMES = 'abcde'
 
 
 def gen_shape(n, kinds, joins):
@@ -647,3 +647,141 @@ def c01_f(ctx):
                needed=['fault-injected', 'ended-ERROR'], max_paths=100000)
     yield Case('action', _fault_case('action', 12),
                needed=['fault-injected', 'ended-ERROR'], max_paths=100000)
+
+
+# ---------------------------------------------------------------------------
+# C01.R  reverse workflows (generated)
+# ---------------------------------------------------------------------------
+def _reverse_case(n, preemptions, oid='C01.R'):
+    """Every 'requires' DAG over n tasks (task i may require any j < i, each
+    requirement a solver choice, given as a list or - for one requirement -
+    as a plain string), every target task, every outcome assignment."""
+    def case():
+        from vt.world import World
+        from vt.explorer import Explorer
+        from mistral import exceptions as exc
+        req = {}
+        for i in range(1, n):
+            req[i] = [j for j in range(i)
+                      if bool(fresh_bool('r%d%d' % (i, j)))]
+        target = choice('target', list(range(n)))
+        lines = ["version: '2.0'", 'wf:', '  type: reverse', '  tasks:']
+        for i in range(n):
+            lines.append('    %s:' % _NAMES[i])
+            lines.append('      action: std.noop')
+            r = req.get(i) or []
+            if len(r) == 1:
+                lines.append('      requires: %s' % _NAMES[r[0]])
+            elif r:
+                lines.append('      requires: [%s]' % ', '.join(
+                    _NAMES[j] for j in r))
+        text = '\n'.join(lines) + '\n'
+        # the dependency cone of the target
+        cone = set()
+
+        def add(i):
+            if i in cone:
+                return
+            cone.add(i)
+            for j in req.get(i) or []:
+                add(j)
+        add(target)
+        sig = '%s:%d' % (oid, n)
+        w = World([text])
+        with w:
+            ex = Explorer(w, sig, preemptions=preemptions)
+            wid = w.start('wf', {}, task_name=_NAMES[target])
+            check(wid is not None, 'reverse-workflow-not-started',
+                  {'signature': sig + ':start', 'text': text,
+                   'errors': [repr(e)[:160] for m, e in w.errors]})
+            if wid is None:
+                return
+            ex.check_invariants()
+            real_deliver = ex.deliver
+
+            def deliver(ev, *a, **k):
+                real_deliver(ev, *a, **k)
+                # no task before its prerequisites
+                rows = {t['name']: t for t in w.tasks(wid)}
+                for name, t in rows.items():
+                    i = _NAMES.index(name)
+                    for j in req.get(i) or []:
+                        p = rows.get(_NAMES[j])
+                        check(p is not None and p['state'] == 'SUCCESS',
+                              'task-created-before-its-required-task-'
+                              'succeeded',
+                              {'signature': sig + ':early', 'task': name,
+                               'requires': _NAMES[j], 'text': text,
+                               'trace': ex.trace[-15:]})
+            ex.deliver = deliver
+            ex.run()
+            reach('quiescent')
+            wf_state, tasks, dup = ex.summary(wid)
+        # reference: a task of the cone runs once all it requires succeeded
+        ran = {}
+        progress = True
+        while progress:
+            progress = False
+            for i in sorted(cone):
+                nm = _NAMES[i]
+                if nm in ran:
+                    continue
+                if all(ran.get(_NAMES[j]) == 'SUCCESS'
+                       for j in req.get(i) or []):
+                    ran[nm] = ex.outcome(nm)
+                    progress = True
+        want = 'SUCCESS' if all(v == 'SUCCESS' for v in ran.values()) \
+            else 'ERROR'
+        if len(cone) > 1:
+            reach('has-requirements')
+        if want == 'ERROR':
+            reach('failed-run')
+        info = {'text': text, 'target': _NAMES[target],
+                'outcomes': dict(ex.outcomes), 'engine': [wf_state, tasks],
+                'reference': [want, ran], 'trace': ex.trace[-30:]}
+        check(wf_state == want, 'final-state-differs-from-language',
+              dict(info, signature=sig + ':final-state'))
+        check(tasks == ran, 'tasks-differ-from-language',
+              dict(info, signature=sig + ':tasks'))
+        check(not dup, 'task-ran-twice', dict(info,
+                                              signature=sig + ':task-twice'))
+        bad = [(m, repr(e)[:200]) for m, e in w.errors
+               if not isinstance(e, exc.MistralException)]
+        check(not bad, 'engine-entry-point-raised-undeclared-error',
+              dict(info, signature=sig + ':undeclared-error', errors=bad))
+    return case
+
+
+@obligation(
+    'C01.R', engine='symx+world(minidb)',
+    functions=['mistral.workflow.reverse_workflow:ReverseWorkflowController.'
+               '_find_next_commands',
+               'mistral.workflow.reverse_workflow:ReverseWorkflowController.'
+               '_find_task_specs_with_satisfied_dependencies',
+               'mistral.workflow.reverse_workflow:ReverseWorkflowController.'
+               '_is_satisfied_task',
+               'mistral.workflow.reverse_workflow:ReverseWorkflowController.'
+               'all_errors_handled',
+               'mistral.workflow.reverse_workflow:ReverseWorkflowController.'
+               '_get_upstream_task_executions',
+               'mistral.lang.v2.workflows:ReverseWorkflowSpec.'
+               'get_task_requires',
+               'mistral.engine.workflows:Workflow.check_and_complete'],
+    bounds={'quick': 'EVERY reverse workflow over 4 tasks (each requirement '
+                     'j < i present or not), every target, every outcome '
+                     'assignment; FIFO with <= 1 out-of-order delivery',
+            'thorough': 'every reverse workflow over 5 tasks'},
+    stubs=['minidb', 'QueueRPC', 'FakeScheduler', 'FakeExecutor',
+           'post-commit queue inline'],
+    outside='task-defaults requires, policies, more than 4 tasks',
+    timeout=(400, 2400))
+def c01_r(ctx):
+    """a reverse workflow runs exactly the tasks of the target's dependency
+    cone whose requirements all succeeded, never creates a task before the
+    tasks it requires are SUCCESS, each task once, and ends SUCCESS iff all
+    of them succeeded, ERROR otherwise"""
+    boot()
+    n = ctx.pick(4, 5)
+    yield Case('%d-tasks' % n, _reverse_case(n, 1),
+               needed=['quiescent', 'has-requirements', 'failed-run'],
+               max_paths=2000000, shard_depth=ctx.pick(5, 8), procs=14)
